@@ -329,3 +329,42 @@ def delete_tag_cases():
         if len([x for x in g.lines if x.record_type == text[0]]) != 1:
             return "the line was lost by delete('ID')"
     return True
+
+
+def connect_cases():
+    """Connection.connect on real Gfas: refused lines (already connected, self reference, second reference clashing) leave the full
+    snapshot unchanged; an accepted line is registered exactly once and owned by the Gfa"""
+    from bounded import state
+    base = ["H\tVN:Z:2.0", "S\tA\t8\t*", "S\tB\t8\t*", "E\te0\tA+\tB+\t6\t8$\t0\t2\t*", "O\tgrp\tA+ B+", "U\tu\tA B"]
+    refused = [("E\te9\tZ+\tgrp+\t0\t2\t0\t2\t*", gfapy.Error), ("G\tA\tA+\tB-\t1\t*", gfapy.NotUniqueError), ("G\tgz\tgz+\tB-\t1\t*", gfapy.NotUniqueError),
+               ("F\tgrp\tq+\t0\t2\t0\t2\t*", gfapy.Error), ("E\te8\tY+\tu-\t0\t2\t0\t2\t*", gfapy.Error)]
+    for text, exc in refused:
+        g = gfapy.Gfa(base, vlevel=1)
+        before = state.snapshot(g)
+        l = gfapy.Line(text, version="gfa2")
+        try:
+            l.connect(g)
+            return "%r was accepted" % text
+        except exc:
+            pass
+        except Exception as e:
+            return "%r raised %s" % (text, type(e).__name__)
+        if l.is_connected() or l._gfa is not None:
+            return "%r: refused line still owned" % text
+        after = state.snapshot(g)
+        if after != before:
+            return "%r refused but the Gfa changed: %s" % (text, "; ".join(state.snap_diff(before, after))[:300])
+    g = gfapy.Gfa(base, vlevel=1)
+    l = gfapy.Line("E\te1\tA-\tB+\t0\t2\t0\t2\t*", version="gfa2")
+    l.connect(g)
+    if l._gfa is not g or sum(1 for x in g.edges if x is l) != 1 or g.line("e1") is not l:
+        return "accepted line not registered exactly once"
+    b = state.snapshot(g)
+    try:
+        l.connect(g)
+        return "connecting a connected line was accepted"
+    except gfapy.RuntimeError:
+        pass
+    if state.snapshot(g) != b:
+        return "second connect changed the Gfa"
+    return True
